@@ -302,7 +302,12 @@ pub fn explore_evaluator(ends: &[f64], with_nan: bool, sink: &mut Sink, max_stat
                 let (did, _, _, dpan) = observe_direct(&pw, px);
                 sink.ev(ev_event(px, &o, did, &dpan));
             }
-            debug_assert_eq!(ev.verif_state(), s);
+            if ev.verif_state() != s {
+                // the same history did not lead to the same hidden state (something outside the evaluator is
+                // remembered between evaluators): no harness matter -- every event is judged on its own by the trace
+                // specification -- but the state graph is not a function of the history, so no closure is claimed
+                closed = false;
+            }
             let o = ev_query(&mut ev, x);
             let (did, _, _, dpan) = observe_direct(&pw, x);
             sink.ev(ev_event(x, &o, did, &dpan));
@@ -586,28 +591,45 @@ pub fn replay_evalv(lines: &[Value], seed: u64) -> ReplayReport {
 
 pub fn drive_evalv(seed: u64, batches: usize, with_nan: bool, sink: &mut Sink) {
     let mut rng = Rng::new(seed);
+    let mut kept: Option<(Piecewise<Probe>, Vec<f64>)> = None;
     for _ in 0..batches {
-        let n = if rng.below(20) == 0 { rng.long_len() } else { 1 + rng.size(4, 40, 8) as usize };
-        let ends = random_ends(&mut rng, n);
-        let pw = probe_pw(&ends);
+        // a fresh object and batch, or (one batch in three) the previous object edited IN PLACE, fed the previous batch
+        // again or a new one: a batch starts from nothing, whatever the batch before it left behind
+        let (pw, old_xs) = match kept.take() {
+            Some((mut p, q)) if rng.below(3) == 0 => {
+                edit_in_place(&mut rng, &mut p, false);
+                (p, if rng.bool() { q } else { vec![] })
+            }
+            _ => {
+                let n = if rng.below(20) == 0 { rng.long_len() } else { 1 + rng.size(4, 40, 8) as usize };
+                (probe_pw(&random_ends(&mut rng, n)), vec![])
+            }
+        };
+        let ends: Vec<f64> = pw.segments.iter().map(|s| s.end).collect();
         let alpha = alphabet(&ends, false);
-        let len = rng.size(8, 300, 30) as usize;
-        let mut xs: Vec<f64> = (0..len)
-            .map(|_| if rng.below(5) == 0 { rng.float_exp(-30, 30) } else { *rng.pick(&alpha) })
-            .collect();
-        let sorted = rng.below(3) != 0;
-        if sorted {
-            xs.sort_by(|a, b| a.partial_cmp(b).unwrap());
-        }
-        if with_nan && !xs.is_empty() && rng.below(4) == 0 {
-            let i = rng.below(xs.len() as u64) as usize;
-            xs[i] = f64::NAN;
-        }
+        let xs: Vec<f64> = if !old_xs.is_empty() {
+            old_xs
+        } else {
+            let len = rng.size(8, 300, 30) as usize;
+            let mut xs: Vec<f64> = (0..len)
+                .map(|_| if rng.below(5) == 0 { rng.float_exp(-30, 30) } else { *rng.pick(&alpha) })
+                .collect();
+            let sorted = rng.below(3) != 0;
+            if sorted {
+                xs.sort_by(|a, b| a.partial_cmp(b).unwrap());
+            }
+            if with_nan && !xs.is_empty() && rng.below(4) == 0 {
+                let i = rng.below(xs.len() as u64) as usize;
+                xs[i] = f64::NAN;
+            }
+            xs
+        };
         let o = observe_evalv(&pw, &xs);
         let dsegs: Vec<u32> = xs.iter().map(|&x| observe_direct(&pw, x).0).collect();
         sink.ev(json!({"ev":"evalv","ends":jbs(&ends),"xs":jbs(&xs),"segs":o.segs,
             "args":o.args.iter().map(|&a| jbits(a)).collect::<Vec<_>>(),"valok":o.vals_ok,
             "pulls":o.pulls,"pre":o.pulled_before_first,"panic":o.panic.is_some(),"dsegs":dsegs}));
+        kept = Some((pw, xs));
     }
 }
 
